@@ -118,9 +118,15 @@ func vfH_C05_pac() {
 	vfrt.Assert(err2 != nil, "pac/script-error-fails-the-request")
 }
 
-type vfVerdict struct{ v bool }
+type vfVerdict struct {
+	v    bool
+	seen *[]string
+}
 
-func (m vfVerdict) Match(string) bool { return m.v }
+func (m vfVerdict) Match(s string) bool {
+	*m.seen = append(*m.seen, s)
+	return m.v
+}
 
 //vf:harness property=C05 nopanic reach=func-none,func-static,func-pac,func-direct-domain,func-direct-localhost
 func vfH_C05_proxyfunc() {
@@ -138,9 +144,10 @@ func vfH_C05_proxyfunc() {
 		pr = &vfPAC{answer: "PROXY pac.example:8080; DIRECT"}
 	}
 	directMatch := false
+	var askedDirect []string
 	if vfrt.Choice("direct-domains", 2) == 1 {
 		directMatch = vfrt.Choice("direct-domains-match", 2) == 1
-		cfg.DirectDomains = vfVerdict{directMatch}
+		cfg.DirectDomains = vfVerdict{directMatch, &askedDirect}
 	}
 	cfg.ProxyLocalhost = AllowProxyLocalhost
 	directLocal := vfrt.Choice("proxy-localhost-direct", 2) == 1
@@ -170,6 +177,9 @@ func vfH_C05_proxyfunc() {
 	}
 	u, err := hp.proxy.ProxyURL(req) // the function the CONNECT path and the Transport both use
 	vfrt.Assert(err == nil, "func/no-error")
+	for _, a := range askedDirect {
+		vfrt.Assert(a == []string{"example.com", "localhost", "127.0.0.1", "::1", "LOCALHOST"}[hi], "func/direct-domains-sees-the-bare-host-name")
+	}
 	switch {
 	case directLocal && isLocal:
 		vfrt.Reach("func-direct-localhost")
